@@ -81,7 +81,7 @@ def idleTail (inj : BSt → Nat → BSt) (s1 : BSt) : BSt :=
   let s2 := inj s1 5
   let s3 := checkFailures inj (flushSinks s2)
   let r := allEmpty s3
-  if r.2 then cleanupLoggers (cleanupContexts r.1) else r.1
+  if r.2 then cleanupLoggers inj (cleanupContexts r.1) else r.1
 
 theorem poll_idle (inj : BSt → Nat → BSt) (s : BSt) (h : (populate inj s).2 = 0) :
     poll inj s = idleTail inj (populate inj s).1 := by
@@ -117,7 +117,7 @@ theorem idleTail_clears {inj : BSt → Nat → BSt} (hq : QuietInj inj) (s1 : BS
     unfold idleTail
     dsimp only
     split
-    · exact cleanupLoggers_closed hH _ (cleanupContexts_closed hH _ hA)
+    · exact cleanupLoggers_closed hH inj (fun s site hs => hH.frame s _ hs (hq s site)) _ (cleanupContexts_closed hH _ hA)
     · exact hA
   rw [hF.1 i]
   exact h3 i (hF.2 i hi)
